@@ -269,6 +269,58 @@ func c17DumpFile(path string, limit int) (c *c17Calls) {
 				return renderValue(v), nil
 			})
 			_ = dims
+			// a strided / blocked hyperslab (ReadHyperslab): every second index of every dimension, blocks of one
+			c17Call(c, "hyperslab:"+p, func() (string, error) {
+				hdr, err := core.ReadObjectHeader(f.Reader(), o.Address(), f.Superblock())
+				if err != nil {
+					return "", err
+				}
+				info, err := core.ReadDatasetInfo(hdr, f.Superblock())
+				if err != nil {
+					return "", err
+				}
+				d := info.Dataspace.Dimensions
+				if len(d) == 0 {
+					return "scalar", nil
+				}
+				sel := &hdf5.HyperslabSelection{Start: make([]uint64, len(d)), Count: make([]uint64, len(d)), Stride: make([]uint64, len(d))}
+				for i, x := range d {
+					sel.Stride[i] = 2
+					sel.Count[i] = (x + 1) / 2
+					if sel.Count[i] == 0 {
+						sel.Count[i] = 1
+					}
+					if sel.Count[i] > 24 {
+						sel.Count[i] = 24
+					}
+				}
+				v, err := o.ReadHyperslab(sel)
+				if err != nil {
+					return "", err
+				}
+				return renderValue(v), nil
+			})
+			// ChunkIterator: the coordinates and the data of every chunk (at most 64 chunks); the first error ends it
+			c17Call(c, "chunkiter:"+p, func() (string, error) {
+				it, err := o.ChunkIterator()
+				if err != nil {
+					return "", err
+				}
+				h := sha1.New()
+				n := 0
+				for it.Next() && n < 64 {
+					v, err := it.Chunk()
+					if err != nil {
+						return "", err
+					}
+					fmt.Fprintf(h, "%v=%s;", it.ChunkCoords(), renderValue(v))
+					n++
+				}
+				if err := it.Err(); err != nil {
+					return "", err
+				}
+				return fmt.Sprintf("total=%d n=%d cd=%v dims=%v sha=%x", it.Total(), n, it.ChunkDims(), it.DatasetDims(), h.Sum(nil)), nil
+			})
 			c17Call(c, "read:"+p, func() (string, error) {
 				vals, err := o.Read()
 				if err != nil {
@@ -811,6 +863,48 @@ func c17ParseOne(op string, r io.ReaderAt, sb *core.Superblock, addr uint64, arg
 			return nil, err
 		}
 		return []interface{}{}, nil
+	case "strings", "compound": // Dataset.ReadStrings / ReadCompound: ReadObjectHeader + the reader (class and call count only)
+		h, err := core.ReadObjectHeader(r, addr, sb)
+		if err != nil {
+			return nil, err
+		}
+		if op == "strings" {
+			_, err = core.ReadDatasetStrings(r, h, sb)
+		} else {
+			_, err = core.ReadDatasetCompound(r, h, sb)
+		}
+		if err != nil {
+			return nil, err
+		}
+		return []interface{}{}, nil
+	case "attrval": // ReadValue of the args[0]-th attribute (variable-length strings: one global heap collection per element)
+		h, err := core.ReadObjectHeader(r, addr, sb)
+		if err != nil {
+			return nil, err
+		}
+		if h.AttributesErr != nil {
+			return nil, h.AttributesErr
+		}
+		if len(args) < 1 || int(args[0]) >= len(h.Attributes) {
+			return nil, errors.New("no such attribute")
+		}
+		v, err := h.Attributes[args[0]].ReadValue()
+		if err != nil {
+			return nil, err
+		}
+		out := []interface{}{}
+		switch x := v.(type) {
+		case string:
+			out = append(out, hex.EncodeToString([]byte(x)))
+		case []string:
+			for _, e := range x {
+				out = append(out, hex.EncodeToString([]byte(e)))
+			}
+		case []interface{}:
+		default:
+			return nil, fmt.Errorf("harness: attrval is for string values, got %T", v)
+		}
+		return out, nil
 	case "raw": // raw element bytes of the dataset at addr through the library's layout dispatch
 		h, err := core.ReadObjectHeader(r, addr, sb)
 		if err != nil {
@@ -1104,6 +1198,15 @@ func init() {
 				seen[k] = true
 				out = append(out, tgt{Op: op, Addr: a})
 			}
+			if op == "attrs" { // variable-length string attributes: ReadValue goes through the global heap
+				if h, err := core.ReadObjectHeader(f.Reader(), a, sb); err == nil && h.AttributesErr == nil {
+					for i, at := range h.Attributes {
+						if at.Datatype != nil && at.Dataspace != nil && at.Datatype.IsVariableString() {
+							out = append(out, tgt{Op: "attrval", Addr: a, Args: []uint64{uint64(i), at.Dataspace.TotalElements()}})
+						}
+					}
+				}
+			}
 		}
 		stab := func(addr uint64) {
 			h, err := core.ReadObjectHeader(f.Reader(), addr, sb)
@@ -1140,6 +1243,12 @@ func init() {
 				add("attrs", x.Address())
 				if _, err := x.Read(); err == nil {
 					add("read", x.Address())
+				}
+				if _, err := x.ReadStrings(); err == nil {
+					add("strings", x.Address())
+				}
+				if _, err := x.ReadCompound(); err == nil {
+					add("compound", x.Address())
 				}
 			case *hdf5.NamedDatatype:
 				add("ohdr", x.VerifAddress())
